@@ -285,7 +285,11 @@ func TestC04(t *testing.T) {
 		if profs[pi].inner == "manykeys" && behs[bi][0].Str("op") == "Import" && bi%40 != int(seed)%40 {
 			return // 2^16-container imports are slow: a seeded 1/40 sample of the import behaviours
 		}
-		c := &codecCase{Beh: behs[bi], Inner: profs[pi].inner, KeySet: profs[pi].keyset, K: K, M: M, Seed: seed,
+		ps := profs[pi]
+		if !behav.Thorough() && pi == 2 {
+			ps = rotProf(bi, seed) // quick tier: the third profile rotates over all shapes and key placements
+		}
+		c := &codecCase{Beh: behs[bi], Inner: ps.inner, KeySet: ps.keyset, K: K, M: M, Seed: seed,
 			Style: EncStyles[(bi+pi+int(seed))%len(EncStyles)]}
 		exec(c, res.Cover)
 		res.CountEval()
